@@ -14,7 +14,7 @@ from tvf.env import Check, fmt_exc
 from tvf.records import coherent_rows
 
 FACTORS = dict(
-    target=["gauss2", "bimodal", "expface", "vonmises", "expface_refl", "support", "mixedbc"],
+    target=["gauss2", "bimodal", "expface", "vonmises", "expface_refl", "support", "support-sparse", "mixedbc"],
     kernel=["tpcn", "rwm"], resample=["mult", "syst"], clustering=[False, True],
     mode=["vec", "scalar", "blobs", "blobs2"], metric=["ess", "vol"], N=[32, 64], cluster_every=[1, 2],
 )
@@ -26,6 +26,12 @@ def to_cfg(row, seed):
              volume_variation=(1.0 if row["metric"] == "vol" else None))
     if row["target"] == "support":
         c["tkw"] = dict(f=0.5)
+    if row["target"] == "support-sparse":
+        # ~90% of the prior has zero likelihood and batches are small: warm-up batches with only 1-2 finite draws
+        c["target"] = "support"
+        c["tkw"] = dict(f=0.1)
+        c["N"] = 24
+        c["n_total"] = 72
     if row["target"] == "mixedbc":
         c["target"] = "gauss4"
         c["tkw"] = dict(half=2.5)
@@ -56,9 +62,28 @@ def traced(cfg):
             if len(bad) < 20:
                 bad.append((key, what + f" [iter {cur['iter']}, beta {cur['beta']}]"))
 
+    batches = []
+
+    def mut_before(self, ms):
+        return (self.state.get_current("beta"), like.n_points, like.n_inf)
+
+    class AllZeroBatch(RuntimeError):
+        pass
+
+    def mut_after(ctx, r, self, ms):
+        if ctx[0] == 0.0:
+            batches.append((like.n_points - ctx[1], like.n_inf - ctx[2]))
+            if batches[-1][0] > 0 and batches[-1][0] == batches[-1][1]:
+                # known finding (C11/C07 all-zero-likelihood-batch) has manifested: the state is NaN from here on
+                raise AllZeroBatch(f"warm-up batch of {batches[-1][0]} prior draws, all with zero likelihood, was stored")
+        check_current("after Mutator.run", self.state)
+
+    def all_zero():
+        return any(n > 0 and n == k for n, k in batches)
+
     with attach.Hooks() as hk:
         hk.wrap(Resampler, "run", after=lambda ctx, r, self, w: check_current("after Resampler.run", self.state))
-        hk.wrap(Mutator, "run", after=lambda ctx, r, self, ms: check_current("after Mutator.run", self.state))
+        hk.wrap(Mutator, "run", before=mut_before, after=mut_after)
 
         def after_commit(ctx, r, self, *a, **k):
             n = self.get_history_length()
@@ -84,8 +109,12 @@ def traced(cfg):
                     if len(bad) < 20:
                         bad.append((key, what))
         except Exception as e:
-            bad.append(("run-raises", f"{type(e).__name__}: {e}\n{fmt_exc()[-300:]}"))
-            return dict(bad=bad, **cnt, iters=it)
+            # the likelihood counters tell whether a whole warm-up batch had zero likelihood (known finding of C11)
+            n_pts = like.n_points - sum(n for n, _ in batches)
+            key = "all-zero-likelihood-batch" if (all_zero() or (like.n_inf - sum(k for _, k in batches) >= c["N"] and it < 8)) else "run-raises"
+            bad = [b for b in bad if key != "all-zero-likelihood-batch" or b[0] != "stored-nonfinite-logl"]
+            bad.append((key, f"{type(e).__name__}: {e}\n{fmt_exc()[-300:]}"))
+            return dict(bad=bad, **cnt, iters=it, sparse=sum(1 for n, k in batches if 0 < n - k <= 2))
         if it >= 400:
             bad.append(("iteration-budget", "no termination within 400 iterations"))
     # whole history again at the end (commits must not have been altered later)
@@ -106,7 +135,9 @@ def traced(cfg):
         for key, what in coherent_rows(t, like, None, x, l, b, f"posterior({kw})"):
             if len(bad) < 20:
                 bad.append((key, what))
-    return dict(bad=bad, **cnt, iters=it)
+    if all_zero():
+        bad = [(("all-zero-likelihood-batch" if k == "stored-nonfinite-logl" else k), w) for k, w in bad]
+    return dict(bad=bad, **cnt, iters=it, sparse=sum(1 for n, k in batches if 0 < n - k <= 2))
 
 
 def run():
@@ -121,6 +152,11 @@ def run():
     ck.tables["pairwise_coverage"] = cover.coverage(rows, FACTORS, 2)
     ck.tables["threeway_coverage"] = cover.coverage(rows, FACTORS, 3)
     tasks = [("tvf.checks.c07:traced", dict(cfg=to_cfg(r, ck.subseed("cfg", i))), None) for i, r in enumerate(rows)]
+    # dedicated workload for the replacement of zero-likelihood prior draws: sparse support x blobs x several seeds
+    for j in range(ck.pick(12, 60)):
+        row = dict(target="support-sparse", kernel=["tpcn", "rwm"][j % 2], resample=["mult", "syst"][(j // 2) % 2], clustering=bool((j // 4) % 2),
+                   mode=["blobs", "blobs2", "scalar"][j % 3], metric="ess", N=24, cluster_every=1)
+        tasks.append(("tvf.checks.c07:traced", dict(cfg=dict(to_cfg(row, ck.subseed("sparse", j)), ess_ratio=3.0)), None))
     for i, st, val in farm.run(tasks, timeout=900, progress="C07"):
         cfg = tasks[i][1]["cfg"]
         if st == "timeout":
@@ -133,6 +169,7 @@ def run():
         ck.event("monitored runs")
         ck.event("step boundaries checked", val["boundaries"])
         ck.event("particle rows looked up in the evaluation log", val["rows"])
+        ck.event("warm-up batches with only 1-2 finite-likelihood draws", val.get("sparse", 0))
         seen = set()
         for key, what in val["bad"]:
             if key in seen:
